@@ -360,19 +360,19 @@ def linspace(
     name = "linspace-" + tokenize((start, stop, num, endpoint, chunks, dtype))
 
     dsk = {}
-    blockstart = start
+    offset = 0
 
     for i, bs in enumerate(chunks[0]):
-        bs_space = bs - 1 if endpoint else bs
-        blockstop = blockstart + (bs_space * step)
         task = Task(
             (name, i),
-            partial(chunk.linspace, endpoint=endpoint, dtype=dtype),
-            blockstart,
-            blockstop,
+            partial(chunk.linspace_block, num=num, endpoint=endpoint, dtype=dtype),
+            start,
+            stop,
+            step,
+            offset,
             bs,
         )
-        blockstart = blockstart + (step * bs)
+        offset += bs
         dsk[task.key] = task
 
     if retstep:
